@@ -14,7 +14,8 @@ RULE = ("scenarios {1 command; 1 experiment; chain of 2; 2 parallel + dependent 
         "a distinct (function, line, number of live processes); distinct = that triple per scenario"
         ' One scenario is a git project with cached versions at ancestor commits (planning talks to git before anything runs).')
 ASSUMPTIONS = [
-    "one signal per execution; the granularity is a Python line of Conductor code (arrival inside a C call surfaces at the next line)",
+    "one signal per execution; two granularities: every Python line of Conductor code (arrival inside a C call surfaces there), and every "
+    "RESUME / JUMP_BACKWARD instruction of Conductor code (where CPython 3.12 runs signal handlers between bytecodes)",
     "injection points with a finalizer (__del__) on the stack are excluded: CPython discards exceptions raised there",
     "the unavoidable CPython window inside Popen.__init__ (child forked, Popen object not yet returned) is not charged to Conductor",
 ]
@@ -55,6 +56,10 @@ def items(tier):
         bound = 1 if (len(c["g"]) == 1 or (tier == "thorough" and len(c["g"]) <= 2)) else 0
         for ch in range(NCHUNKS):
             out.append({"case": c, "chunk": ch, "scn_index": i, "bound": bound})
+    # second granularity: exactly the instructions at which CPython runs Python-level signal handlers in Python code
+    for i, c in enumerate(scenarios(tier)[:6]):
+        for ch in range(NCHUNKS // 3):
+            out.append({"case": c, "chunk": ch, "nchunks": NCHUNKS // 3, "scn_index": i, "bound": 0, "granularity": "evalbreaker"})
     return out
 
 
@@ -64,9 +69,9 @@ def schedules(scn, bound=0):
     return found
 
 
-def one_injection(scn, choices, k, target=None):
+def one_injection(scn, choices, k, target=None, granularity="line"):
     from conductor.errors import ConductorAbort
-    inj = inject.AbortInjector(k, exc_factory=ConductorAbort, target=target)
+    inj = inject.AbortInjector(k, exc_factory=ConductorAbort, target=target, granularity=granularity)
     state = {}
 
     def on_fire(i):
@@ -83,7 +88,7 @@ def one_injection(scn, choices, k, target=None):
 
 def check(inj, state, obs, viol_cb, art):
     res = obs.res
-    where = "%s:%s:%d" % (inj.fired_at[1], inj.fired_at[0], inj.fired_at[2])
+    where = "%s:%s:%d%s" % (inj.fired_at[1], inj.fired_at[0], inj.fired_at[2], (" [%s@%d]" % tuple(inj.fired_at[3:5])) if len(inj.fired_at) > 3 else "")
     if isinstance(res.exc, driver.HarnessTimeout) or res.timed_out:
         viol_cb("abort:hang:%s" % inj.fired_at[0], "abort at %s: cond does not exit: it blocks waiting for a task that nobody terminated" % where, art)
         return
@@ -113,29 +118,33 @@ def run_item(item, tier):
     res = {"evals": 0, "sigs": set(), "violations": [], "counters": {}, "sample": None}
     found = {}
     scn = rungrid.make_scenario(item["case"])
+    gran = item.get("granularity", "line")
+    nchunks = item.get("nchunks", NCHUNKS)
     for choices in schedules(scn, item.get("bound", 0)):
-        counter = inject.AbortInjector(None)
-        explore.execute(scn, choices, tracer=counter)
-        n1 = counter.count
-        counter = inject.AbortInjector(None)
-        explore.execute(scn, choices, tracer=counter)
-        N = counter.count
-        if N != n1:
-            raise RuntimeError("line-event count not deterministic: %d vs %d" % (n1, N))
+        counts = []
+        for _ in range(5):   # the first traced run of a code object can see fewer events (instrumentation is installed lazily)
+            counter = inject.AbortInjector(None, granularity=gran)
+            explore.execute(scn, choices, tracer=counter)
+            counts.append(counter.count)
+            if len(counts) >= 2 and counts[-1] == counts[-2] and counts[-1] > 0:
+                break
+        N = counts[-1]
+        if len(counts) < 2 or counts[-1] != counts[-2] or N == 0:
+            raise RuntimeError("injection-point count not deterministic: %r" % (counts,))
         res["counters"]["N:%d:%s" % (item["scn_index"], "".join(map(str, choices)))] = N if item["chunk"] == 0 else 0
-        lo = item["chunk"] * N // NCHUNKS
-        hi = (item["chunk"] + 1) * N // NCHUNKS
+        lo = item["chunk"] * N // nchunks
+        hi = (item["chunk"] + 1) * N // nchunks
         for k in range(lo, hi):
-            inj, state, obs = one_injection(scn, choices, k)
+            inj, state, obs = one_injection(scn, choices, k, granularity=gran)
             res["evals"] += 1
             if inj.fired_at is None:
                 raise RuntimeError("injection point %d of %d never reached" % (k, N))
             if inj.skipped_finalizer:
                 res["counters"]["skipped_in_finalizer"] = res["counters"].get("skipped_in_finalizer", 0) + 1
                 continue
-            res["sigs"].add(explore.sig([item["scn_index"], inj.fired_at, len(state.get("running", []))]))
-            art = {"case": item["case"], "choices": choices, "k": k, "N": N,
-                   "target": [inj.fired_at[1], inj.fired_at[2], inj.nth]}
+            res["sigs"].add(explore.sig([item["scn_index"], gran, inj.fired_at, len(state.get("running", []))]))
+            art = {"case": item["case"], "choices": choices, "k": k, "N": N, "granularity": gran,
+                   "target": list(inj.fired_key) + [inj.nth]}
             check(inj, state, obs, lambda key, what, a: found.setdefault(key, (what, a)), art)
             if res["sample"] is None and state.get("running"):
                 res["sample"] = {"argv": scn["argv"], "schedule": choices, "line_events": N, "injected_at": list(inj.fired_at),
@@ -147,10 +156,10 @@ def run_item(item, tier):
 
 def replay(artefact):
     scn = rungrid.make_scenario(artefact["case"])
-    warm = inject.AbortInjector(None)
+    warm = inject.AbortInjector(None, granularity=artefact.get("granularity", "line"))
     explore.execute(scn, artefact["choices"], tracer=warm)
     found = {}
-    inj, state, obs = one_injection(scn, artefact["choices"], None, target=artefact["target"])
+    inj, state, obs = one_injection(scn, artefact["choices"], None, target=artefact["target"], granularity=artefact.get("granularity", "line"))
     if inj.fired_at is None or inj.skipped_finalizer:
         return []
     check(inj, state, obs, lambda key, what, a: found.setdefault(key, what), None)
